@@ -192,15 +192,19 @@ fn main() {
     let sb = sb.merge(sb2).merge(sb2d);
 
     // (b3) long inputs: lengths around 2^7, 2^8, 2^10, 2^12, 2^16 (a parser working on a bounded prefix or buffer)
-    let mut sl = Stats::default();
-    for n in [120usize, 127, 128, 255, 256, 257, 300, 1024, 4096, 65536] {
+    // sizes: the neighbourhood of every power of two up to 2^22 (thorough 2^25 = 32 MiB) and of every power of ten up to 10^6 (10^7)
+    let mut lens: Vec<usize> = vec![120, 300];
+    lens.extend(numpool::sizes(if ctx.quick() { 22 } else { 25 }, if ctx.quick() { 6 } else { 7 }));
+    let sl = lens.par_iter().map(|&n| {
+        let mut sl = Stats::default();
         for x in [format!("1.0.0-{}", "a".repeat(n)), format!("1.0.0-{}!", "a".repeat(n)), format!("1.0.0+{}", "a".repeat(n)), format!("1.0.0-a{}", ".a".repeat(n / 2)), format!("1.0.0-a{}.", ".a".repeat(n / 2)),
             format!("1.0.0-a{}..b", "a".repeat(n)), format!("1.0.0+{}.007", "0-".repeat(n / 2)), format!("{}.0.0", "1".repeat(n)), format!("1.0.0-{}1", "0".repeat(n)), format!("v1.0.0-rc.1+{}", "b.".repeat(n / 2) + "b")] {
             sl.inc("long_inputs");
             let v = judge(&x, n <= 4096, &mut sl);
             report(&ctx, &x, "long", v, &mut sl);
         }
-    }
+        sl
+    }).reduce(Stats::default, Stats::merge);
     let sb = sb.merge(sl);
 
     // (c) boundary numerals in each numeric position
